@@ -24,6 +24,7 @@ import PV.Model.Tree
 import PV.Model.Text
 import PV.Model.JsonDoc
 import PV.Model.Pobs
+import PV.Model.FlowWindow
 
 open Lean PV PV.Wire
 
@@ -558,6 +559,16 @@ def opPobs (j : Json) : Except String Json := do
     | .ok got => pure (obj [("blocks", bj), ("obs", enc got)])
     | .error e => pure (obj [("blocks", bj), ("rexc", .str (reprStr e))])
 
+/-- op "flowwindow": {"n": number of flow times, "mask": [value > 0], "fr": fit_range} -> {"idx": indices of the flow times
+    handed to the straight-line fit} | {"exc": "no-crossing"} -/
+def opFlowWindow (j : Json) : Except String Json := do
+  let n : Nat ← get j "n"
+  let mask : List Bool ← get j "mask"
+  let fr : Nat ← get j "fr"
+  match Flow.fitWindow (List.range n) mask fr with
+  | none => pure (obj [("exc", .str "no-crossing")])
+  | some w => pure (obj [("idx", enc w)])
+
 /-- op "fitlinear" (exact rationals): {"blocks": [{"key", "rows": [[q]], "y": [q], "dy": [q]}] (in the order handed over),
     "npar": n, "priors": [[index, value, width]]} -> {"p", "S", "chisq", "order": keys as stacked} | {"exc": "singular"} -/
 def opFitLinear (j : Json) : Except String Json := do
@@ -597,6 +608,7 @@ def dispatch (op : String) (j : Json) : Except String Json :=
   | "textblock" => opTextBlock j
   | "jsondoc" => opJsonDoc j
   | "pobs" => opPobs j
+  | "flowwindow" => opFlowWindow j
   | "sortnames" => opSortNames j
   | "select" => opSelect j
   | "jsonrep" => opJsonRep j
